@@ -67,6 +67,39 @@ def run(ctx):
         for rec in subjects:
             for q in ('a == r"%s"' % pat, 'r"%s" != a' % pat, 'a.b == r"%s"' % pat):
                 cases.append(("regex", q, rec))
+    # redaction paths in the whole JSONPath syntax the path library accepts (slices with every sign of start, end and step,
+    # unions, filters, root and current-node markers) behind wildcards and descents, over arrays of different lengths
+    def jp_soup():
+        segs = []
+        for _ in range(rng.randint(1, 4)):
+            r = rng.random()
+            if r < 0.3:
+                segs.append("." + rng.choice(["a", "b", "c", "k", "rows", "items"]))
+            elif r < 0.4:
+                segs.append(rng.choice(["[*]", ".*", "..", "..a", "..k"]))
+            elif r < 0.7:
+                v = lambda: rng.choice(["", "0", "1", "2", "3", "5", "-1", "-2", "-5"])
+                segs.append("[%s:%s%s]" % (v(), v(), rng.choice(["", ":1", ":2", ":-1", ":-2", ":0", ":"])))
+            elif r < 0.8:
+                segs.append(rng.choice(["[0,2]", "[1,-1]", "['a','b']", "[0,'a']", "[-1,-3]"]))
+            elif r < 0.9:
+                segs.append(rng.choice(["[?(@.k > 1)]", "[?(@.a == 'x')]", "[?(@ > 2)]", "[?(@.b)]", "[?(1)]"]))
+            else:
+                segs.append("[%d]" % rng.randint(-4, 4))
+        p_ = "".join(segs).lstrip(".")
+        return rng.choice(["", "", "$.", "@."]) + (p_ if p_ else "a")
+    shaped = ['{"a":[[1,2,3,4],[5,6],[],[7]],"b":{"k":[{"k":1},{"k":2,"a":"x"}],"a":[1,2,3]},"rows":[[1],[2,3,4,5,6]],"items":[{"a":[1,2]},{"a":[]}],"c":"x","k":3}',
+              '{"a":{"a":[1,2,3],"b":[4]},"b":[[[1,2],[3]],[[4,5,6]]],"k":[1,2,3,4,5],"rows":[],"items":[1,"x",null,[1,2,3],{"k":[9,8,7]}]}']
+    # ... and systematically: a slice with every sign combination below a selector with several parents
+    vals = ["", "0", "1", "2", "3", "5", "-1", "-3"]
+    combos = [(b, w, st, en, sp) for b in ("a", "rows", "b", "items[*].a", "..a", "..k", "b.k") for w in ("[*]", ".*", "")
+              for st in vals for en in vals for sp in ("", ":1", ":2", ":-1", ":-2")]
+    for b, w, st, en, sp in (rng.sample(combos, 600) if quick else combos):
+        for rec in shaped:
+            cases.append(("jsonpath-soup", 'redact("%s%s[%s:%s%s]")' % (b, w, st, en, sp), rec))
+    for _ in range(400 if quick else 6000):
+        pth = jp_soup()
+        cases.append(("jsonpath-soup", rng.choice(['redact("%s")', 'redact("%s") and a', 'redact("c", "%s", "k")']) % pth, rng.choice(shaped)))
     depth = 100000          # beyond what the Go stack (1 GB) carries if the parser recursed that deep
     for i, form in enumerate(kfl.DEEP_FORMS):
         d = min(depth, 20000) if i == 6 else depth          # the long dotted path is quadratic in the parser
